@@ -94,6 +94,8 @@ class Ctx:
             log("[build] EXPERIMENT: building against %s instead of /repo; evidence goes to /tmp/verif-override-evidence" % alt)
         if race:
             cmd.append("-race")
+        if os.environ.get("VERIF_COVERDIR"):              # measurement only: which library statements the checks execute
+            cmd += ["-cover", "-coverpkg=github.com/minio/simdjson-go,verif/harness/..."]
         cmd.append("./cmd/vh")
         t = time.time()
         p = subprocess.run(cmd, cwd=HARNESS, env=GOENV, capture_output=True, text=True)
@@ -114,6 +116,8 @@ class Ctx:
             e["VERIF_KNOWN_SIG_RE"] = "|".join("(?:%s)" % x for x in ks)
         if env:
             e.update(env)
+        if os.environ.get("VERIF_COVERDIR"):
+            e["GOCOVERDIR"] = os.environ["VERIF_COVERDIR"]
         t = time.time()
         try:
             pre = None
